@@ -86,7 +86,7 @@ Definition ires_of_acc (nrows ncols : Z) (xll yll csz : T) (acc : list (Z * T)) 
   let idx := map fst acc in
   let w := map snd acc in
   let coords := map (cell2coord N nrows ncols xll yll csz) idx in
-  let half := ndiv N csz (nofZ N INTERSECT_HALF_DIV) in
+  let half := ndiv N csz (nadd N (n1 N) (n1 N)) in   (* grid.cellsize/2 *)
   let axll := nsub N (fmin_list (map fst coords)) half in
   let ayll := nsub N (fmin_list (map snd coords)) half in
   let rc := map (cell2rowcol nrows ncols) idx in
